@@ -123,3 +123,18 @@ M("c08.nutation-13187", "C08", C, "[-13187.0, -1.6],", "[-31187.0, -1.6],")
 M("c08.coarse-0.00569", "C08", S, "lambd = true_lon - 0.00569 - 0.00478 * sin(omega.rad())", "lambd = true_lon - 0.0569 - 0.00478 * sin(omega.rad())")
 M("c08.b1950-matrix", "C08", S, "x = 0.999925702634 * x + 0.012189716217 * y + 0.000011134016 * z", "x = 0.999925702634 * x + 0.012819716217 * y + 0.000011134016 * z")
 M("c08.mean-equinox-y", "C08", S, "y = r * (sin(ll) * cos(e) - sin(b) * sin(e))", "y = r * (sin(ll) * cos(e) + sin(b) * sin(e))", note="b ~ 1e-6 rad: 4e-7 AU effect vs 1e-9 AU tolerance")
+# ---- C09
+MA = "pymeeus/Mars.py"
+MI = "pymeeus/Minor.py"
+PL = "pymeeus/Pluto.py"
+M("c09.no-lighttime", "C09", MA, "        epoch -= tau\n", "        epoch -= 0.0 * tau\n", note="survivor by design: Mars moves < 0.012 deg in one light-time, inside the property's 0.02 deg allowance for aberration+nutation")
+M("c09.lighttime-const", "C09", MA, "tau = 0.0057755183 * delta", "tau = 0.057755183 * delta")
+M("c09.earth-after-shift", "C09", MA, "        # Compute again Mars coordinates with this correction\n", "        l0, b0, r0 = Earth.geometric_heliocentric_position(epoch, tofk5=False)\n        l0r = l0.rad()\n        b0r = b0.rad()\n        # Compute again Mars coordinates with this correction\n")
+M("c09.atan2-swapped", "C09", MA, "lamb = atan2(y, x)", "lamb = atan2(x, y)")
+M("c09.minor-0.98->0.89", "C09", MI, "        if e < 0.98:\n            # Elliptic case\n            # With the mean anomaly, use Kepler's equation to find E and v\n            ee, v = kepler_equation(e, m)\n            ee = Angle(ee).to_positive()\n            # Get r\n            er = ee.rad()\n            rr = a * (1.0 - e * cos(er))\n        elif abs(e - 1.0) < self._tol:\n            # Parabolic case\n            q = self._q\n            ww = (0.03649116245 * t_peri) / (q * sqrt(q))\n            sp = ww / 3.0\n            iterate = True\n            while iterate:\n                s = (2.0 * sp * sp * sp + ww) / (3.0 * (sp * sp + 1.0))\n                iterate = abs(s - sp) > self._tol\n                sp = s\n            v = 2.0 * atan(s)\n            v = Angle(v, radians=True)\n            rr = q * (1.0 + s * s)\n        else:\n            # We are in the near-parabolic case\n            v, rr = self._near_parabolic(t_peri)\n        # Compute the heliocentric rectangular equatorial coordinates\n        wr = w.rad()\n        vr = Angle(v).rad()\n        x = rr * am * sin(aa + wr + vr)\n        y = rr * bm * sin(bb + wr + vr)\n        z = rr * cm * sin(cc + wr + vr)\n        xi = x + xs", "        if e < 0.89:\n            # Elliptic case\n            # With the mean anomaly, use Kepler's equation to find E and v\n            ee, v = kepler_equation(e, m)\n            ee = Angle(ee).to_positive()\n            # Get r\n            er = ee.rad()\n            rr = a * (1.0 - e * cos(er))\n        elif abs(e - 1.0) < self._tol:\n            # Parabolic case\n            q = self._q\n            ww = (0.03649116245 * t_peri) / (q * sqrt(q))\n            sp = ww / 3.0\n            iterate = True\n            while iterate:\n                s = (2.0 * sp * sp * sp + ww) / (3.0 * (sp * sp + 1.0))\n                iterate = abs(s - sp) > self._tol\n                sp = s\n            v = 2.0 * atan(s)\n            v = Angle(v, radians=True)\n            rr = q * (1.0 + s * s)\n        else:\n            # We are in the near-parabolic case\n            v, rr = self._near_parabolic(t_peri)\n        # Compute the heliocentric rectangular equatorial coordinates\n        wr = w.rad()\n        vr = Angle(v).rad()\n        x = rr * am * sin(aa + wr + vr)\n        y = rr * bm * sin(bb + wr + vr)\n        z = rr * cm * sin(cc + wr + vr)\n        xi = x + xs", note="moves the switch of the second pass only: results may still agree if the series converges; refusals rise")
+M("c09.parabolic-const", "C09", MI, "ww = (0.03649116245 * t_peri) / (q * sqrt(q))", "ww = (0.0365 * t_peri) / (q * sqrt(q))", nth=1)
+M("c09.minor-se-ce", "C09", MI, "        se = 0.397777156\n        ce = 0.917482062", "        se = 0.917482062\n        ce = 0.397777156")
+M("c09.aberration-sign", "C09", MA, "        lon = l0 + 180.0\n        lon = lon.rad()", "        lon = l0\n        lon = lon.rad()", note="survivor by design: flips a 0.0057 deg term inside the 0.02 deg allowance")
+M("c09.pluto-minus-sun", "C09", PL, "        xi = x + xs\n        eta = y + ys\n        zeta = z + zs\n        # Compute Pluto's distance to Earth\n        delta = sqrt(xi * xi + eta * eta + zeta * zeta)\n        # Compute right", "        xi = x - xs\n        eta = y + ys\n        zeta = z + zs\n        # Compute Pluto's distance to Earth\n        delta = sqrt(xi * xi + eta * eta + zeta * zeta)\n        # Compute right")
+M("c09.epoch-mutated", "C09", MA, "        epoch -= tau\n", "        epoch._jde -= tau\n")
+M("c09.elong-venus-nutation", "C09", "pymeeus/Venus.py", "        elon = acos(cos(betar) * cos(lambr - lsr))", "        elon = acos(cos(betar) * cos(lambr - lsr + 0.001))")
